@@ -7,7 +7,7 @@ import (
 	zz "rare/pkg/zzverif"
 )
 
-var zzHarnesses = map[string]func(){"H10FuncFile": H10FuncFile}
+var zzHarnesses = map[string]func(){"H10FuncFile": H10FuncFile, "H10Reenter": H10Reenter}
 
 func zzFuncs(kb *expressions.KeyBuilder) {
 	kb.Func("cat", func(args []expressions.KeyBuilderStage) (expressions.KeyBuilderStage, error) {
@@ -123,8 +123,18 @@ func H10FuncFile() {
 		call = "{f2"
 	}
 	which := call[1:]
+	nestable := b1[0] == '{' && b1 != "{0}"
 	for i := 0; i < na; i++ {
-		a := argTexts[zz.Choice(len(argTexts))]
+		k := zz.Choice(len(argTexts) + 1)
+		if k == len(argTexts) {
+			// an argument that is itself a call of a funcs-file function (the
+			// same pooled argument context is needed twice at the same time)
+			zz.Assume(nestable)
+			args = append(args, zzSubstAt(b1, []string{"{1}", "q"}, 1))
+			call += " {f1 {1} q}"
+			continue
+		}
+		a := argTexts[k]
 		args = append(args, a)
 		call += " " + a
 	}
@@ -162,4 +172,53 @@ func args1(a []string, i int) string {
 		return a[i]
 	}
 	return "\"\""
+}
+
+// zzGateCtx: a match whose key "gate", when looked up, lets a second
+// evaluator run the same compiled expression to completion on another match
+// (the schedule "B runs while A is suspended inside the call").
+type zzGateCtx struct {
+	elems []string
+	other func() string
+	got   string
+}
+
+func (c *zzGateCtx) GetMatch(i int) string {
+	if i >= 0 && i < len(c.elems) {
+		return c.elems[i]
+	}
+	return ""
+}
+func (c *zzGateCtx) GetKey(k string) string {
+	if k == "gate" && c.other != nil {
+		f := c.other
+		c.other = nil
+		c.got = f()
+	}
+	return ""
+}
+
+// H10Reenter: two evaluators inside the same funcs-file call site at once
+// each see their own match.
+func H10Reenter() {
+	bodies := []string{"<{0}{gate}|{0}>", "{cat {0} {gate} {1} {0}}", "{gate}{cat {1} {0}}"}
+	b := bodies[zz.Choice(len(bodies))]
+	kb := expressions.NewKeyBuilderEx(zz.Choice(2) == 0)
+	zzFuncs(kb)
+	_, err := LoadDefinitions(kb, strings.NewReader("wrap "+b+"\n"), "mem")
+	zz.Assert(err == nil, "funcs file does not load")
+	calls := []string{"{wrap {1} {0}}", "{wrap {0} x}", "{wrap {cat {1} y} {1}}"}
+	call := calls[zz.Choice(len(calls))]
+	c1, e1 := kb.Compile(call)
+	zz.Assert(e1 == nil && c1 != nil, "call does not compile")
+	a := &zzGateCtx{elems: []string{zz.String(1), zz.String(1)}}
+	bb := &zzGateCtx{elems: []string{zz.String(1), zz.String(1)}}
+	aloneA := c1.BuildKey(&zzGateCtx{elems: a.elems})
+	aloneB := c1.BuildKey(&zzGateCtx{elems: bb.elems})
+	a.other = func() string { return c1.BuildKey(bb) }
+	gotA := c1.BuildKey(a)
+	zz.Assert(a.other == nil, "the gate was not reached")
+	zz.Assert(a.got == aloneB, "the second evaluator's result depends on the evaluator it interrupted")
+	zz.Assert(gotA == aloneA, "an evaluator interrupted inside a funcs-file call sees another evaluator's match")
+	zz.Reached()
 }
